@@ -48,7 +48,9 @@ func run(in string) string {
 
 func gen(r *hx.Rng, n int, tier string) []string {
 	var lines []string
-	seed := func() string { return strings.TrimLeft(strings.Map(func(c rune) rune { return c }, itoa(r.U64()%1000000)), "") }
+	seed := func() string {
+		return strings.TrimLeft(strings.Map(func(c rune) rune { return c }, itoa(r.U64()%1000000)), "")
+	}
 	// the whole catalogue once (every run), then random slice programs
 	for _, t := range templates {
 		lines = append(lines, "G|prim|"+t.name+"|"+seed())
